@@ -311,6 +311,7 @@ def evaluate(sim, scn, reqs, results, stops, status, knobs, stats=None):
             "abort_phase": ",".join(phases) or "-", "reaction": ",".join(reactions) or "-",
             "unconsumed_aborted_result": _unconsumed(stops, results),
             "result_kinds": ",".join(sorted({str(r_.kind) for r_ in results})),
+            "has_single_result": any(r_.kind == "single" for r_ in results),
             "signal": any(s is not None and s.controller is not None for s in stops)},
             {"tasks": [getattr(x.get_coro(), "__qualname__", "?") for x in lib_left][:6]}))
     agen_hits = [n for n in sim.loop.finalizer_hits if "agen" in n]
@@ -451,7 +452,10 @@ def run_unit(seed=None, unit=None, tier="quick", stats=None):
     incremental = ptape.draw(4, "incr") != 0
     focus = unit.get("focus") if unit is not None else (
         "background" if seed[2] % 5 == 2 else "earlyclose" if seed[2] % 5 == 4
-        else "abortstream" if seed[2] % 5 == 0 else None)
+        else "abortstream" if seed[2] % 5 == 0 else "streamfail" if seed[2] % 5 == 1 else None)
+    if focus == "streamfail":
+        stop_kind = "none"
+        incremental = True
     if focus == "abortstream":
         stop_kind = "abort"
         incremental = True
@@ -493,7 +497,7 @@ def run_unit(seed=None, unit=None, tier="quick", stats=None):
 
         sim, reqs, results, status, knobs, al, stops = run_incremental(
             scn, st, stop_factory=factory, lenient=True,
-            force_early=(True if focus == "earlyclose"
+            force_early=(True if focus in ("earlyclose", "streamfail")
                          else False if focus == "abortstream" and r != 1 else None),
             force_capacity=(1, 2)[r % 2] if focus == "abortstream" else None)
         bump(stats, "counts", "execs", len(reqs))
